@@ -67,8 +67,12 @@ def _case(draw, tier):
     # optionally spikes outside the common interval
     if draw(st.sampled_from([False, False, True])):
         k = draw(st.integers(0, len(trains) - 1))
-        out = draw(st.lists(st.one_of(st.integers(-5, -1), st.integers(n + 1, n + 5)),
+        # at least one coarse grid step (>= 1/64) outside: far from the 1e-6
+        # tolerance that reconcile grants
+        u = (1 << 14) if g.get("fine") else 1
+        out = draw(st.lists(st.one_of(st.integers(-5, -1), st.integers(1, 5)),
                             min_size=1, max_size=2))
+        out = [o * u if o < 0 else n + o * u for o in out]
         pos = draw(st.integers(0, len(trains[k]["spikes"])))
         trains[k]["spikes"] = trains[k]["spikes"][:pos] + out + trains[k]["spikes"][pos:]
     c = dict(t0=k0 / q, t1=(k0 + n) / q,
